@@ -1103,7 +1103,7 @@ pub fn classify_server(frame: &[u8], rx_cap: usize) -> Class {
             let props = match server_props(&mut r, P_CONNACK, false) {
                 Ok(p) => p,
                 // a refusing CONNACK may be reported by its reason code before its properties are read
-                Err(Class::MustReject("property value runs past the property block" | "non-canonical or oversized variable-length integer in a CONNACK property" | "property identifier above 255 in a CONNACK")) if reason >= 0x80 => return Class::DontCare("malformed properties in a refusing CONNACK"),
+                Err(Class::MustReject("property value runs past the property block" | "non-canonical or oversized variable-length integer in a CONNACK property" | "property identifier above 255 in a CONNACK")) if reason != 0 => return Class::DontCare("malformed properties in a CONNACK that does not accept the connection (a refusal, or a reason code MQTT 5 does not define for CONNACK)"),
                 Err(c) => return c,
             };
             if r.left() != 0 {
